@@ -95,7 +95,13 @@ def replay (c : Cfg) : Nat → State → List Json → Bool → Except String Re
         | .ok v => (match v.getNat? with | .ok x => s'.nprocs == x | .error _ => true)
         | .error _ => true
       if !npOk then pure ⟨i, some (i, "nprocs-mismatch"), s', ok⟩ else
-      replay c (i + 1) s' js (ok && mu c s' < mu c s)
+      -- at a `cAbandon`: the caller's own steps (`finishSeq`) must be a possible schedule that ends the call with empty queues
+      let finOk : Bool := if a == .cAbandon then
+          (match runTrace c s (finishSeq s) with
+           | some t => t.main == .done && t.inq.isEmpty && t.outq.isEmpty && (List.range c.n).all (fun w => !enabled c t (.wGet w))
+           | none => false)
+        else true
+      replay c (i + 1) s' js (ok && mu c s' < mu c s && finOk)
 
 /-- multiset equality of two lists of naturals (run-time check (C)) -/
 def sameMultiset (a b : List Nat) : Bool :=
